@@ -105,7 +105,7 @@ class Check:
                 listed.append(f)
             else:
                 unlisted.append(f)
-        outdir = os.path.join(VERIF, 'evidence')
+        outdir = os.environ.get('MTSA_EVIDENCE_DIR') or os.path.join(VERIF, 'evidence')
         os.makedirs(os.path.join(outdir, 'findings'), exist_ok=True)
         lines = []
         for f in listed:
